@@ -21,7 +21,7 @@ func allPropsUnsorted() []*propInfo {
 				"C01.4 the pull selection has exactly {completed_at IS NULL, expires_at > now, subscription_id = verified sub, attempt_at <= now} (+ the ordering gate only for ordered subscriptions); " +
 				"C01.5 attempts / not_before_id have a single writer; C02.2 (shared) every update/delete of delivery rows is addressed by delivery id or scoped to the subscription resolved in the same operation. " +
 				"C04.9 (shared) no two predicate lists are appended to one spare-capacity base slice when both appends can run; C13.3 (shared) the snapshot watermark is the looked-up delivery's published_at itself. " +
-				"C07.6 (shared) AND / OR chains evaluate every term with the right short-circuit value. C14.3 / C14.6 (shared) the subscription's own expiry clock is restarted with its TTL (a subscription swept early takes its outstanding messages with it). C01.6 (shared) completed_at is always the current time; C14.1 / C15.1 (shared) a delivery's retention is the message retention and the expiry prune compares with the clock itself. NOT decided: clock arithmetic (that attempt_at/expires_at values make a message due again), database semantics, the history-level claim itself.",
+				"C07.6 (shared) AND / OR chains evaluate every term with the right short-circuit value. C14.3 / C14.6 (shared) the subscription's own expiry clock is restarted with its TTL (a subscription swept early takes its outstanding messages with it). C01.6 (shared) completed_at is always the current time; C14.1 / C15.1 (shared) a delivery's retention is the message retention and the expiry prune compares with the clock itself. C04.10 (shared) a request field counted in seconds is scaled by time.Second; C17.5 (shared, retention instances) an unset retention is stored as the default, not as zero. NOT decided: clock arithmetic (that attempt_at/expires_at values make a message due again), database semantics, the history-level claim itself.",
 			Assumptions: []string{k1Assumption, "database executes the statements as ent renders them"},
 			Rules: []ruleFn{
 				{ID: "C04.10", Doc: "(shared: a modify-deadline in the wrong unit withholds the message far past its lease — past its retention) [dep] seconds fields are scaled by time.Second", Run: ruleC04_10},
@@ -55,7 +55,7 @@ func allPropsUnsorted() []*propInfo {
 				"C02.3 message rows are immutable (no generated setter for content columns, no update statement on messages, created only by publish, deleted only by the completed-messages prune job); " +
 				"C02.4 content provenance (K9 data dependence): request field -> action parameter -> column -> pull result -> gRPC field, each depending on its own source field and on no other content field; MessageIds[i] is the id of the i-th stored message. " +
 				"C13.3 (shared) a snapshot records only its own subscription's deliveries; C02.4 also requires the stored payload and attributes to be the request's values unchanged. " +
-				"C07.6 (shared) chain evaluation; C02.4 also: payload / attributes handed to the client are the stored field itself on every path (no special-cased or recomputed value). C02.4 also: every content field of the publish parameters is written on every path to the publish of each message. NOT decided: JSON value equality through jsonb/text storage, duplicates within one response (primary-key fact), histories.",
+				"C07.6 (shared) chain evaluation; C02.4 also: payload / attributes handed to the client are the stored field itself on every path (no special-cased or recomputed value). C02.4 also: every content field of the publish parameters is written on every path to the publish of each message. C12.8 (shared) a resource is addressed by its whole name (no prefix match outside the List scopes); C17.1 / C17.2 (shared, dead-letter instances) the dead-letter topic stored is the request's, and an update that clears the policy is saved. NOT decided: JSON value equality through jsonb/text storage, duplicates within one response (primary-key fact), histories.",
 			Assumptions: []string{k1Assumption, "protobuf/ent field names correspond one-to-one as in the generated code"},
 			Rules: []ruleFn{
 				{ID: "C12.8", Doc: "(shared: deleting or changing one subscription never reaches another whose name merely starts the same) [atoms] a resource is addressed by its whole name", Run: ruleC12_8},
@@ -77,7 +77,7 @@ func allPropsUnsorted() []*propInfo {
 				"C03.1 deliveries.completed_at is cleared only by the two seek actions; C03.2 the pull selection excludes completed rows on every path; " +
 				"C03.3 delivery rows are created only by deliverToSubscription, called only from publish and dead-letter forwarding (no path re-enqueues an acked message); " +
 				"C03.4 ack/nack/modify-deadline return only errors that originate from storage/helper calls (no self-made error for unknown, stale or foreign ids) and their bulk statements are addressed by id IN <ids>. " +
-				"C06.5 (shared) a nack selects only outstanding rows, so a late nack of an acked id neither forwards it to the dead-letter topic nor rewrites it. Deliberately not demanded: the completed_at IS NULL guard in modify-deadline (dropping it does not resurrect an acked message: the pull excludes completed rows). C01.2 (shared) ack statements are keyed by exactly the request's ids; C03.5 ack ids are converted completely and in place or the request fails; C04.9 (shared) no aliased predicate appends; C09.2 / C09.3 (shared) commit errors are reported. C03.6 every StreamingPull frame, the opening one included, reaches the streamer through adaptIn. C06.1 (shared) only pull, nack and the sweep dead-letter. C02.2 (shared) every delivery mutation is scoped to the resolved subscription. NOT decided: the history-level claim.",
+				"C06.5 (shared) a nack selects only outstanding rows, so a late nack of an acked id neither forwards it to the dead-letter topic nor rewrites it. Deliberately not demanded: the completed_at IS NULL guard in modify-deadline (dropping it does not resurrect an acked message: the pull excludes completed rows). C01.2 (shared) ack statements are keyed by exactly the request's ids; C03.5 ack ids are converted completely and in place or the request fails; C04.9 (shared) no aliased predicate appends; C09.2 / C09.3 (shared) commit errors are reported. C03.6 every StreamingPull frame, the opening one included, reaches the streamer through adaptIn. C06.1 (shared) only pull, nack and the sweep dead-letter. C02.2 (shared) every delivery mutation is scoped to the resolved subscription. C17.6 (shared, stream adapter) an ack list of any length >= 1 reaches the ack action; C09.8 (shared) no error becomes status OK; C06.2 (shared, sweep selection) the dead-letter sweep takes outstanding rows only. NOT decided: the history-level claim.",
 			Assumptions: []string{k1Assumption},
 			Rules: []ruleFn{
 				{ID: "C17.6", Doc: "(shared, stream adapter instances: an ack list of any length ≥ 1 on a StreamingPull frame reaches the ack action) [dom] presence guards", Run: ruleC17_6, Only: `adaptIn`},
@@ -107,7 +107,7 @@ func allPropsUnsorted() []*propInfo {
 				"C04.3 selection and lease update run on the same tx of one closure; each delivered element adds exactly 1 to attempts and sets attempt_at from the SAME element's deadline, which is now + NextDelayFor(sub, attempts+1) (+jitter); the update loop covers every delivered element; " +
 				"C04.4 modify-deadline carries `attempt_at < X` over the same X it sets, skipped only when Delay <= 0; C04.5 nack reschedules each delivery by now + the delay NextDelayFor(sub, d.Attempts) returned for that same delivery; C04.6 reported attempt = attempts + 1. " +
 				"C04.7 shape of NextDelayFor; C04.8 the stream adapter folds per-id deadlines with max; C04.9 no two predicate lists are appended to one base slice with spare capacity when both appends can run in one execution (the later append overwrites the earlier guard). " +
-				"C04.8 also: modify-deadline ids of a stream request go to the delay action, never to the nack queue. NOT decided: the numeric backoff formula, jitter bound and saturation; PostgreSQL row-lock semantics; 'handed out again once the deadline has passed'.",
+				"C04.8 also: modify-deadline ids of a stream request go to the delay action, never to the nack queue. C04.1 also: the wake-up lookup takes the earliest attempt_at; C04.10 seconds fields are scaled by time.Second; C17.2 (shared, retry-policy instances). NOT decided: the numeric backoff formula, jitter bound and saturation; PostgreSQL row-lock semantics; 'handed out again once the deadline has passed'.",
 			Assumptions: []string{k1Assumption, "FOR UPDATE SKIP LOCKED / SQLite immediate transactions give exclusivity (database semantics)"},
 			Rules: []ruleFn{
 				{ID: "C04.10", Doc: "[dep] a request field counted in seconds becomes a duration by multiplication with time.Second", Run: ruleC04_10},
@@ -132,7 +132,7 @@ func allPropsUnsorted() []*propInfo {
 				"C05.4 every pull-side query carries the gate LEFT JOIN predecessor ∧ (no predecessor ∨ predecessor completed ∨ predecessor expired) under sub.OrderedDelivery and nothing else; " +
 				"C05.5 deliveries.not_before_id is ON DELETE SET NULL in the ent migrate schema and in the last SQL definition of the constraint. " +
 				"C01.5 (shared) re-opening mutators keep not_before; C05.6 a fresh clock reading per published message. " +
-				"C13.1 (shared) a time seek re-opens only unexpired deliveries; C15.2 (shared) the schema is created with its foreign keys. NOT decided: ties of published_at inside one batch, interplay with seek-to-snapshot, the history-level order itself.",
+				"C13.1 (shared) a time seek re-opens only unexpired deliveries; C15.2 (shared) the schema is created with its foreign keys. C02.4 (shared, ordering-key instances) each message of a batch is stored with its own ordering key; C17.2 (shared, ordering instances) only an update naming enable_message_ordering changes ordered delivery. NOT decided: ties of published_at inside one batch, interplay with seek-to-snapshot, the history-level order itself.",
 			Assumptions: []string{k1Assumption},
 			Rules: []ruleFn{
 				{ID: "C02.4", Doc: "(shared, ordering-key instances: each message of a batch is stored with its own ordering key) [dep] content provenance", Run: ruleC02_4, Only: `OrderKey|OrderingKey|order_key`},
@@ -154,7 +154,7 @@ func allPropsUnsorted() []*propInfo {
 				"C06.3 after a successful dead-letter call the same iteration neither appends the delivery to the pull result nor reschedules it; " +
 				"C06.4 the source delivery (data.DeliveryID) is completed on the same tx on every successful path, the forward set is the live subscriptions of the live dead-letter topic, every one reaches deliverToSubscription, the forwarded message is the original row loaded whole by id; " +
 				"C06.5 a nack's candidates are outstanding (id IN ids, completed_at IS NULL, expires_at > now, in the query) and its dead-letter / reschedule loop walks the selected rows (each candidate once), not the request's id list. " +
-				"C17.4 (shared) a dead-letter topic is attached only as the entity a lookup returned for this request. C06.4 also: the retiring update is addressed by the delivery id and nothing else. C06.7 the attempt limit an update stores is the request's value if non-zero, else the default. NOT decided: 'exactly once' under concurrent PostgreSQL transactions, counting N over histories, topology effects.",
+				"C17.4 (shared) a dead-letter topic is attached only as the entity a lookup returned for this request. C06.4 also: the retiring update is addressed by the delivery id and nothing else. C06.7 the attempt limit an update stores is the request's value if non-zero, else the default. C06.2 also: the trigger compares the stored attempt count and limit themselves (no arithmetic); C17.6 (shared, dead-letter instances) a policy of one attempt is stored. NOT decided: 'exactly once' under concurrent PostgreSQL transactions, counting N over histories, topology effects.",
 			Assumptions: []string{k1Assumption},
 			Rules: []ruleFn{
 				{ID: "C17.6", Doc: "(shared, dead-letter instances: a policy of one attempt is stored as a policy) [dom] presence guards", Run: ruleC17_6, Only: `MaxDeliveryAttempts|DeadLetter`},
@@ -178,7 +178,7 @@ func allPropsUnsorted() []*propInfo {
 				"C12.5 each List handler's prefix kind equals its entity's name-validator kind, keyset pagination is consistent (ORDER BY id ASC, id > token only when a token is given, LIMIT pageSize, next token = last SCANNED row iff a full page was scanned); " +
 				"C12.6 project scoping is case-exact (every listed row passes strings.HasPrefix(row.Name, prefix) over the same prefix, or the SQL atom is case-exact). " +
 				"C12.2 also: nothing classifies the save error before the duplicate-key test in a way a unique violation can satisfy; the classifier answers yes exactly for SQLSTATE 23505 of a *pgconn.PgError or the SQLite sibling's verdict. " +
-				"C12.5 also: the scanned rows are not sorted or overwritten before the page token is taken; C17.4 (shared). C12.7 every lookup of snapshots selects by name / id / prefix only (the siblings agree on which snapshots exist). C15.5 (shared) a topic's snapshots, and only they, are removed with it. NOT decided: races under PostgreSQL isolation levels, histories, 'inherits no backlog' beyond C12.3.",
+				"C12.5 also: the scanned rows are not sorted or overwritten before the page token is taken; C17.4 (shared). C12.7 every lookup of snapshots selects by name / id / prefix only (the siblings agree on which snapshots exist). C15.5 (shared) a topic's snapshots, and only they, are removed with it. C12.8 a statement narrowed by the name column compares it for equality (List scopes by separator-terminated prefix excepted). NOT decided: races under PostgreSQL isolation levels, histories, 'inherits no backlog' beyond C12.3.",
 			Assumptions: []string{k1Assumption, "SQLite evaluates LIKE case-insensitively, PostgreSQL case-sensitively (documented behaviour)"},
 			Rules: []ruleFn{
 				{ID: "C12.8", Doc: "[atoms] a resource is addressed by its whole name: every lookup narrowed by the name column compares it for equality", Run: ruleC12_8},
@@ -216,7 +216,7 @@ func allPropsUnsorted() []*propInfo {
 				"C14.1 a delivery is created with expires_at = now + s.MessageTTL, attempt_at = now + s.DeliveryDelay, published_at = now (idiom-bound: time.Time.Add of a conversion of the field); C14.2 the pull requires expires_at > now; " +
 				"C14.3 every pull restarts the subscription clock: a refresh (expires_at = now + ttl) in its own committed transaction precedes the wait loop, and applyResults refreshes on every successful path; " +
 				"C14.4 the expiry sweep selects exactly expires_at < now (live) rows and soft-deletes exactly those; C14.5 the delay injector rejects negative delays before storing. " +
-				"Revived messages get fresh retention: C13.1/C13.2 re-open mutators (evaluated under C13). C14.6 every write of a subscription's expires_at is now + its expiration TTL and derives from nothing that is the message retention. C14.6 also: where a statement stores a new ttl the deadline is computed from that value; C17.5 (shared) zero durations select the defaults. C14.4 also: the sweep selects live rows only (deleted_at IS NULL is required). NOT decided: exactness of durations, timing around deadlines, the interval codec.",
+				"Revived messages get fresh retention: C13.1/C13.2 re-open mutators (evaluated under C13). C14.6 every write of a subscription's expires_at is now + its expiration TTL and derives from nothing that is the message retention. C14.6 also: where a statement stores a new ttl the deadline is computed from that value; C17.5 (shared) zero durations select the defaults. C14.4 also: the sweep selects live rows only (deleted_at IS NULL is required). C15.3 (shared) the expiry sweep's service runs the expiry action; C17.2 (shared, expiration-policy instances) a TTL update restarts expires_at. NOT decided: exactness of durations, timing around deadlines, the interval codec.",
 			Assumptions: []string{k1Assumption},
 			Rules: []ruleFn{
 				{ID: "C17.2", Doc: "(shared, expiration_policy instances: an update of the TTL restarts the expiry clock with the new TTL) [atoms] update-mask locality", Run: ruleC17_2, Only: `expiration_policy`},
@@ -240,7 +240,7 @@ func allPropsUnsorted() []*propInfo {
 				"C15.2 referential actions: every foreign key is NO ACTION except not_before_id and dead_letter_topic_id (SET NULL), no CASCADE, in the ent schema and the SQL migrations; " +
 				"C15.3 every maintenance action constructor is registered as a background service, and the dead-letter sweep is registered; C15.4 the service loops wait on a ticker (or re-arm their timer on every path); C01.1 / C02.3 (shared) nothing else deletes delivery or message rows. " +
 				"C15.5 every child table of topics with a NO ACTION foreign key that no prune job deletes from (snapshots) is emptied by DeleteTopic with exactly `fk IN (ids)`. " +
-				"C15.1 also: the expiry prune compares expires_at with the clock itself; C15.2 also: no WithForeignKeys(false); C14.4 / C01.6 (shared). NOT decided: metamorphic equality of traces, convergence at the fixpoint.",
+				"C15.1 also: the expiry prune compares expires_at with the clock itself; C15.2 also: no WithForeignKeys(false); C14.4 / C01.6 (shared). C09.2 (shared, runOnce) a failed prune round is rolled back. NOT decided: metamorphic equality of traces, convergence at the fixpoint.",
 			Assumptions: []string{k1Assumption},
 			Rules: []ruleFn{
 				{ID: "C09.2", Doc: "(shared, prune rounds: a failed round is rolled back, so no job keeps the write lock and stays stuck) [dom] runOnce commits or rolls back", Run: ruleC09_2, Only: `runOnce`},
@@ -304,7 +304,7 @@ func allPropsUnsorted() []*propInfo {
 				"C16.1 no explicit panic (today: the precondition panics of the actions.New* constructors) is reachable for any request field values; C16.2 no request sub-message that may be absent is dereferenced (field access or non-nil-safe method) without a dominating nil test. " +
 				"C16.3 (rejected requests change nothing) = C09.1/C09.4/C09.5 evaluated under C09. " +
 				"C16.4 (K9b path-sensitive provenance through the transaction closure and clamping helpers) the effective page size of every List handler is >= 1 on every path. " +
-				"C06.2 (shared) the dead-letter trigger and HasFullDeadLetterConfig, which guard the *DeadLetterTopicID dereference in deadLetterDataFromEntities. C16.5 an eager-loaded edge loaded with a filter is dereferenced only under a nil test; C16.6 every value added to a Prometheus counter is the conversion of an integer count. C16.7 constant indexes into request-derived slices in package services are under a length test; C16.8 the pull's deferred clean-up dereferences params.ID only under a nil test; C09.2 (shared) the runner commits only on success. NOT decided: index/slice bounds in general, resource exhaustion, hangs, panics inside third-party code, requests arriving on a stream after the first (their fields are treated as unconstrained but their sub-messages are only checked when dereferenced in the handler itself).",
+				"C06.2 (shared) the dead-letter trigger and HasFullDeadLetterConfig, which guard the *DeadLetterTopicID dereference in deadLetterDataFromEntities. C16.5 an eager-loaded edge loaded with a filter is dereferenced only under a nil test; C16.6 every value added to a Prometheus counter is the conversion of an integer count. C16.7 constant indexes into request-derived slices in package services are under a length test; C16.8 the pull's deferred clean-up dereferences params.ID only under a nil test; C09.2 (shared) the runner commits only on success. C16.9 a pointer-like result that comes with an error is dereferenced only where the error was found nil or the result tested. NOT decided: index/slice bounds in general, resource exhaustion, hangs, panics inside third-party code, requests arriving on a stream after the first (their fields are treated as unconstrained but their sub-messages are only checked when dereferenced in the handler itself).",
 			Assumptions: []string{
 				"gRPC never passes a nil request; elements of repeated message fields are non-nil (protobuf decoding)",
 				"protobuf-generated Get* accessors, (*durationpb.Duration).AsDuration, (*timestamppb.Timestamp).AsTime, CheckValid/IsValid are nil-safe",
@@ -333,7 +333,7 @@ func allPropsUnsorted() []*propInfo {
 				"C11.5 (K6 intervals) effectiveFlowControl returns limits >= 1 for every int64 input on amd64 (and 386 in the thorough tier), initial limits are positive constants; C11.6 an over-budget message is skipped without ending the scan and is never appended; the byte counter accumulates; " +
 				"C11.7 ids acked or nacked on the stream leave pending, and the refresh goroutine removes exactly the ids of its under-lock snapshot that the database no longer reports as outstanding, asking exactly `id IN snapshot ∧ completed_at IS NULL ∧ not expired`. " +
 				"C11.8 the client's limits reach FlowControl un-swapped; C11.9 the pull's result cell is written only by applyResults and never reset (a pull that found candidates answers instead of parking with a stale budget). " +
-				"NOT decided: the numeric invariant over interleavings, promptness.",
+				"C10.3 (shared, ack instances) an ack spanning several subscriptions wakes each. NOT decided: the numeric invariant over interleavings, promptness.",
 			Assumptions: []string{k1Assumption, "sync.Mutex semantics; channel send on a buffered channel never blocks the waker"},
 			Rules: []ruleFn{
 				{ID: "C10.3", Doc: "(shared, ack instances: an ack spanning several subscriptions wakes the blocked stream of each, so each rebuilds its pending set) [K2] broadcasts reach every target", Run: ruleC10_3, Only: `AckDeliveries`},
@@ -354,7 +354,7 @@ func allPropsUnsorted() []*propInfo {
 				"C18.3 (K3 lockset) Set.faults is read under mu.RLock/Lock and written under mu.Lock; C18.4 Description.match returns true only with count > 0, equal operation, and every injected parameter present and equal; C18.5 prune/Current separate live from exhausted descriptions by count > 0; " +
 				"C18.6 the pooled parameter map of the gRPC interceptor is emptied unconditionally before the request's fields are written (also before a closure that writes it is handed out). " +
 				"C18.3 fresh-write: what is written to the fault table under the exclusive lock is computed inside that critical section (not from a shared-lock read or a helper that takes the mutex itself); C18.7 interceptor discipline. " +
-				"C18.4 also: match says no only under an exhausted count, another operation, or a missing / different injected parameter (judged per path). C18.8 the request-to-parameter extraction reads no package-level state besides the pool. NOT decided: the exact count min(N, matches) over schedules (C18.1/2 are its memory-ordering and re-check conditions), request-to-parameter extraction for all messages.",
+				"C18.4 also: match says no only under an exhausted count, another operation, or a missing / different injected parameter (judged per path). C18.8 the request-to-parameter extraction reads no package-level state besides the pool. C18.9 the lookup loop of (*Set).match leaves early only by returning the description that matched. NOT decided: the exact count min(N, matches) over schedules (C18.1/2 are its memory-ordering and re-check conditions), request-to-parameter extraction for all messages.",
 			Assumptions: []string{"sync/atomic and sync.RWMutex semantics"},
 			Rules: []ruleFn{
 				{ID: "C18.9", Doc: "[dom] the lookup considers every description of the operation: it leaves early only by returning the one that matched", Run: ruleC18_9},
@@ -376,7 +376,7 @@ func allPropsUnsorted() []*propInfo {
 				"C19.3 (K6 intervals) inductive invariant of the adaptive window: assuming maxMessages ∈ [1,1000] on entry of Receive every store keeps it there, initial value is a constant in range; " +
 				"C19.4 (K3) window state is accessed only under c.mu (the test-only reader CurrentFlowControl is the named exception); C19.5 Receive reports ids from the ack queues as Ack and ids from the nack queue as Nack. " +
 				"C11.4 / C11.7 (shared) the pusher's pending set is rebuilt completely from one query. " +
-				"C19.2 also: the rendered publish time carries its zone (zone verb or UTC conversion). C19.2 also: the payload is encoded with base64.StdEncoding. NOT decided: 'never pushed again / pushed again after the backoff' (C03/C04 behaviour), concurrency <= window as a runtime count, out-of-order endpoints.",
+				"C19.2 also: the rendered publish time carries its zone (zone verb or UTC conversion). C19.2 also: the payload is encoded with base64.StdEncoding. C19.6 the push service forgets a pusher whose monitor is done (delete under the loop's own key), so a re-enabled subscription gets a new one. NOT decided: 'never pushed again / pushed again after the backoff' (C03/C04 behaviour), concurrency <= window as a runtime count, out-of-order endpoints.",
 			Assumptions: []string{"net/http reports transport failures as a non-nil error from Client.Do"},
 			Rules: []ruleFn{
 				{ID: "C19.6", Doc: "[dom] a pusher that has ended is removed from the service's map, so the subscription gets a new one", Run: ruleC19_6},
@@ -398,7 +398,7 @@ func allPropsUnsorted() []*propInfo {
 				"C07.5 the call closure of Evaluate is pure (no package variables, no map iteration, no side effects, only strings.HasPrefix / errors.New / fmt.Errorf outside the module); " +
 				"C07.6 (idiom-bound) leaf shapes: presence bit; presence ∧ ==/!= under the matching operator; presence ∧ strings.HasPrefix(attribute, prefix); XOR with Not; AND/OR chains end with the first deciding term; Condition combines the first term with the matching chain. " +
 				"C07.1 skip-only-by-verdict: deliverToSubscription skips a subscription only on the filter's verdict or the absence of a filter; C08.6 (shared) the printer keeps grouping parentheses. " +
-				"C08.8 (shared) the filter parser is built with exactly UseLookahead and Unquote(String); C07.6 Term negation is a parity of Not flags. C08.1 (shared) the stored filter text is the validated text. C08.9 (shared) the leaf forms capture the same kinds of attribute name. NOT decided: agreement with the documented Pub/Sub semantics over the infinite input space, boolean laws, precedence as implemented by participle.",
+				"C08.8 (shared) the filter parser is built with exactly UseLookahead and Unquote(String); C07.6 Term negation is a parity of Not flags. C08.1 (shared) the stored filter text is the validated text. C08.9 (shared) the leaf forms capture the same kinds of attribute name. C17.2 (shared, filter instances) a filter cleared by an update is no longer in force. NOT decided: agreement with the documented Pub/Sub semantics over the infinite input space, boolean laws, precedence as implemented by participle.",
 			Assumptions: []string{"participle builds the parser the struct tags describe", k1Assumption},
 			Rules: []ruleFn{
 				{ID: "C17.2", Doc: "(shared, filter instances: a filter cleared by an update is no longer in force) [atoms] update-mask locality", Run: ruleC17_2, Only: `noop-shortcut|:filter`},
@@ -422,7 +422,7 @@ func allPropsUnsorted() []*propInfo {
 				"C08.2 (K9) the printer writes Name fields only through formatAttrName and Value fields only through strconv.Quote; C08.3 formatAttrName returns a name unquoted only if it is non-empty and every rune is '_' / letter / digit-not-in-first-position (idiom-bound); " +
 				"C08.4 (K7) every grammar type has an AsFilter method that reads every captured field; C08.6 a sub-condition is always printed between parentheses; C08.5 a stored filter that fails to parse skips the subscription instead of failing the publish. " +
 				"C08.7 package filter keeps no bounds check the compiler's prove pass cannot discharge (go build -gcflags=-d=ssa/check_bce over the analysed overlay; nothing is executed; today: none). " +
-				"C08.8 the filter parser is built with exactly UseLookahead and Unquote(String) (no option that changes the accepted language or rewrites tokens); C08.6 also: a negated term is printed with its NOT. C08.9 the leaf forms capture the same kinds of attribute name; the AND / OR group of Condition is optional, not repeated. NOT decided: 'accepted iff sentence of the documented grammar', parser totality/termination (third-party participle), full print/parse round-trip.",
+				"C08.8 the filter parser is built with exactly UseLookahead and Unquote(String) (no option that changes the accepted language or rewrites tokens); C08.6 also: a negated term is printed with its NOT. C08.9 the leaf forms capture the same kinds of attribute name; the AND / OR group of Condition is optional, not repeated. C08.8 also: no per-call parse option (AllowTrailing …) anywhere in the module. NOT decided: 'accepted iff sentence of the documented grammar', parser totality/termination (third-party participle), full print/parse round-trip.",
 			Assumptions: []string{"participle builds the parser the struct tags describe; its lexer's identifier rule is text/scanner's (letter or '_' first, then letters/digits/'_')"},
 			Rules: []ruleFn{
 				{ID: "C08.9", Doc: "[K7] the leaf forms accept the same kinds of attribute name; AND and OR are not mixable at one level", Run: ruleC08_9},
@@ -441,7 +441,7 @@ func allPropsUnsorted() []*propInfo {
 			Explanation: "Static necessary conditions of 'configuration round-trips': " +
 				"C17.1 (K9 data dependence) every configuration field CreateSubscription accepts flows request → action parameter → its column, and every such column is read back by entSubscriptionToGrpc into the corresponding response field (labels, retention, expiration TTL, ordering flag, filter, retry policy, dead-letter policy, push endpoint; topics: labels); " +
 				"C17.2 update-mask locality: in UpdateSubscription / UpdateTopic the set of columns mutated under each mask path equals the frozen table, no column is mutated outside a mask path, unknown paths are rejected, and the no-op shortcut that skips the save checks every kind of mutation (set / cleared / added) the handler can apply; under a mask path with several stored columns every path sets or clears each of them (replace, not merge). " +
-				"C17.3 in the stored-duration codec no floating-point value computed from the parsed digits is truncated to an integer (a length-derived power of ten is exact and allowed; math.Round first is allowed) and a duration is never represented as a float (no Seconds/Minutes/Hours, FormatFloat/ParseFloat, or 64-bit-count-to-float conversion). C17.1 independence: the response field fed by column X sits under a test of X only, never of a sibling column (except attempts under the dead-letter topic). C17.2 also: the handlers switch on the mask's own path strings (a pass-through helper may fetch them, not compute new ones); C17.4 a dead-letter topic is attached only as the entity a lookup returned for this request, never a cached edge. C17.5 zero durations select the documented defaults (a comparison with 0, also in a shared helper); C17.3 also: Interval.Value writes the exact duration. C17.3 also: the interval pattern constant accepts PostgreSQL's renderings (table check on the constant); C06.7 (shared). NOT decided: the rest of the interval codec (all durations / all PostgreSQL interval strings — numeric), defaults' values, sequences of updates.",
+				"C17.3 in the stored-duration codec no floating-point value computed from the parsed digits is truncated to an integer (a length-derived power of ten is exact and allowed; math.Round first is allowed) and a duration is never represented as a float (no Seconds/Minutes/Hours, FormatFloat/ParseFloat, or 64-bit-count-to-float conversion). C17.1 independence: the response field fed by column X sits under a test of X only, never of a sibling column (except attempts under the dead-letter topic). C17.2 also: the handlers switch on the mask's own path strings (a pass-through helper may fetch them, not compute new ones); C17.4 a dead-letter topic is attached only as the entity a lookup returned for this request, never a cached edge. C17.5 zero durations select the documented defaults (a comparison with 0, also in a shared helper); C17.3 also: Interval.Value writes the exact duration. C17.3 also: the interval pattern constant accepts PostgreSQL's renderings (table check on the constant); C06.7 (shared). C17.1 also covers topic and snapshot creation; C17.6 the guard of a call consuming an optional value is the presence test itself. NOT decided: the rest of the interval codec (all durations / all PostgreSQL interval strings — numeric), defaults' values, sequences of updates.",
 			Assumptions: []string{k1Assumption, "protobuf/ent field names correspond one-to-one as in the generated code"},
 			Rules: []ruleFn{
 				{ID: "C17.6", Doc: "[dom] an optional value is acted on whenever it is present: the guard of the call consuming it is the presence test itself", Run: ruleC17_6},
